@@ -25,7 +25,7 @@ import tempfile
 from .. import astdb, pe, emit, oracle, templates, runtime, modules as M, ctyperules as ct
 from ..astdb import AnalysisBroken, kids, walk
 from ..pe import Ptr
-from .. import memrules as mr
+from .. import memrules as mr, semrules as sr
 from . import c01, c03, c06
 
 V = oracle.VALTYPE_ENC
@@ -407,6 +407,19 @@ def run(chk):
         site = 'template/' + (row['name'] if row else name)
         n_ops += ub_scan(chk, 'R11', name, stmts, tu, site, text)
         n_div += division_guards(chk, name, stmts, tu, site, text)
+        if row and row['sem'].get('cls') == 'trunc':
+            # exact decision on the order abstraction of the guard constants (shared with C02 R02.5): only undefined
+            # conversions are C11's business, wrong-but-defined results belong to C02
+            st1 = [s_ for s_ in stmts if s_.get('kind') != 'NullStmt']
+            e = ct.simplify(st1[0], tu)
+            if e.k == 'assign':
+                try:
+                    probs, npts = sr.descr_trunc(row, e.a[1], [mr.slot(tabs, row['params'][0], len(mr.FILLER))])
+                except AnalysisBroken as ex:
+                    probs, npts = ['undecided: %s' % ex], 0
+                ub = [p_ for p_ in probs if 'undefined behaviour' in p_]
+                chk.expect(not ub, 'R11.4', name + ':f2i-exact', 'float-to-integer conversion reached with an out-of-range operand: %s [template: %s]'
+                           % ('; '.join(ub[:2]), text.strip()), site + ':f2i-range', detail_ok='%d boundary operands, conversion always in range' % npts)
         for nd in walk(astdb.fn_body(f)):
             if nd.get('kind') == 'CallExpr':
                 cn = astdb.callee_name(nd)
